@@ -91,7 +91,10 @@ def classify_lex(i, m):
 
 def lex_stream(ctx, genprop="LEX", subdir="lex"):
     """token-level correspondence (L1): the real lexer (`tokens`) against the model (`lex`) on the generated stream.
-    returns (mismatches, counters): a mismatch is dict(id, src(bytes), tag, impl, model, cls)."""
+    returns (mismatches, counters): a mismatch is dict(id, src(bytes), tag, impl, model, cls) with cls one of
+    impl-panic | impl-crash | impl-hang | string-lexeme | tokens | offsets | accept-reject | error-kind | error-offset |
+    spec (an `items` case — a rendering of a well-separated lexical item list, Vore/Spec/LexItems.lean — whose real
+    tokens are not the kinds+lexemes the specification assigns)."""
     cases, impl, model, stats = gen_run(ctx, genprop, subdir)
     counters = collections.Counter()
     mism = []
@@ -106,6 +109,16 @@ def lex_stream(ctx, genprop="LEX", subdir="lex"):
         counters["evaluations"] += 1
         counters["tag-" + tag] += 1
         counters["impl-" + lex_class(i)] += 1
+        if tag == "items" and len(parts) > 3:
+            # specification oracle (theorem C15_lex_items): kinds and lexemes the lexical grammar assigns
+            want = [tuple(t.split(":")) for t in parts[3].split(" ")]
+            toks = parse_toks(i or "")
+            got = None if toks is None else [(t[0], "x" + t[1].hex()) for t in toks]
+            counters["spec-oracle"] += 1
+            if got != want:
+                counters["mismatch-spec"] += 1
+                mism.append(dict(id=cid, src=src, tag=tag, impl=i, model="SPEC " + parts[3], cls="spec"))
+                continue
         if m is None:
             counters["model-missing"] += 1
             if lex_class(i) in ("PANIC", "CRASH", "HANG"):
